@@ -891,6 +891,7 @@ pub fn sweep_twin(opts: &Opts) -> i32 {
     let walks = opts.num("walks", 500);
     let plies = opts.num("plies", 60);
     let mut rng = rng(seed, 7000 + shard);
+    let probe_every = opts.num("probe-every", 0);
     let mut t = Tally::new();
     let n = roots.as_array().map_or(0, |a| a.len());
     for w in 0..walks {
@@ -941,6 +942,24 @@ pub fn sweep_twin(opts: &Opts) -> i32 {
                         Ok(built) if same_board(&built, &board) && built.to_string() == text => {}
                         other => t.mismatch("C05", "builder-differs-from-moved-board", &case, json!(text),
                                             json!(other.map(|x| x.to_string()))),
+                    }
+                    // C01 (last sentence) / C02: the single-move questions against the generator's own list,
+                    // over all 20480 triples, on every n-th position
+                    if probe_every > 0 && t.counts.get("positions").copied().unwrap_or(0) % probe_every == 0 {
+                        let p = probe_all(&board);
+                        let gen = sorted(codes_of(&a["legals"]));
+                        t.inc("probed_positions");
+                        if codes_of(&p["isl"]) != gen {
+                            t.mismatch("C01", "is_legal-disagrees-with-generator", &case, json!(gen.clone()), p["isl"].clone());
+                        }
+                        for k in ["acc_new", "acc_mut", "acc_into"] {
+                            if codes_of(&p[k]) != gen {
+                                t.mismatch("C02", &format!("{k}-disagrees-with-generator"), &case, json!(gen.clone()), p[k].clone());
+                            }
+                        }
+                        if p["touched"] != json!(0) {
+                            t.mismatch("C02", "refusal-touched-board", &case, json!(0), p["touched"].clone());
+                        }
                     }
                     let tags = classify_pos(&board, &codes_of(&a["legals"]));
                     if !tags.is_empty() {
